@@ -363,6 +363,7 @@ func load(dir string) (*loaded, error) {
 }
 
 type imgResult struct {
+	Skipped  bool // not evaluated: this child already met several images on which a step hit its time limit
 	TimedOut bool // some step hit its (generous) time limit: decided only by a solo re-run
 	Problems []ledger.Problem
 	Info     fsjournal.Info
@@ -771,7 +772,25 @@ func sgn(x int64) int {
 func init() {
 	fw.RegisterIsolated("c03-trace", genTrace)
 	fw.RegisterChild("c03-image", func(setup []byte, scratch string) func(i int, data []byte) []byte {
-		return func(i int, data []byte) []byte { return checkImage(scratch, i, data) }
+		// a store that stopped making progress costs a full time limit per image: after a few of them in this
+		// child the remaining images are not evaluated (counted as inconclusive by the parent), so that a
+		// tree on which recovery hangs is reported from the solo re-runs within minutes, not hours
+		hung := 0
+		return func(i int, data []byte) []byte {
+			if hung >= 6 {
+				b, _ := json.Marshal(imgResult{Skipped: true})
+				return b
+			}
+			out := checkImage(scratch, i, data)
+			var res imgResult
+			if json.Unmarshal(out, &res) == nil && res.TimedOut {
+				var ic imgCase
+				if json.Unmarshal(data, &ic) == nil && !ic.Slow {
+					hung++
+				}
+			}
+			return out
+		}
 	})
 }
 
@@ -915,6 +934,7 @@ func Run(c *fw.Ctx) {
 	sampled := 0
 	var retry [][]byte
 	var retryMeta []imgCase
+	skipped := 0
 	var handle func(cases [][]byte, meta []imgCase, final bool) func(rs fw.CaseResult)
 	handle = func(cases [][]byte, meta []imgCase, final bool) func(rs fw.CaseResult) {
 		return func(rs fw.CaseResult) {
@@ -935,8 +955,19 @@ func Run(c *fw.Ctx) {
 				c.Inconclusive(fmt.Sprintf("image %s: %v %s", where, err, res.Err))
 				return
 			}
+			if res.Skipped {
+				c.Count("images_skipped_after_repeated_time_limits", 1)
+				skipped++
+				return
+			}
 			if res.TimedOut && !final {
 				// a time limit fired on a loaded machine: not a verdict; re-run alone with limits ×10
+				// (the first few only: each costs minutes when the store really hangs)
+				c.Count("time_limit_hits", 1)
+				if len(retry) >= 8 {
+					skipped++
+					return
+				}
 				ic.Slow = true
 				b, _ := json.Marshal(ic)
 				retry = append(retry, b)
@@ -973,6 +1004,9 @@ func Run(c *fw.Ctx) {
 	c.RunCases("c03-image", nil, cases, fw.CasesOpts{Workers: 15, CaseTimout: 3 * time.Minute}, handle(cases, meta, false))
 	if len(retry) > 0 {
 		c.RunCases("c03-image", nil, retry, fw.CasesOpts{Workers: 2, CaseTimout: 10 * time.Minute}, handle(retry, retryMeta, true))
+	}
+	if skipped > 0 {
+		c.Inconclusive(fmt.Sprintf("%d crash images were not evaluated (or not re-run alone) after repeated time-limit hits", skipped))
 	}
 }
 
